@@ -84,6 +84,24 @@ CHECKS["C12"] = dict(
    note="Float rounding is exercised, not modelled; margin == slot is checked with exact tick lengths only.",
    design="6/C12", technique=TECH)
 
+CHECKS["C07"] = dict(
+   text=("Registration.tla model-checked for DISABLED / TASK / ARGUMENTS / KEYS x raise option (AtMostOneRegisteredPerKey, "
+         "ReuseReturnsExisting, RaiseChangesNothing, DisabledAlwaysNew). TLC-simulated submission histories (repeated keys, "
+         "equal values across key arguments, differing non-key arguments) are replayed on both orchestrators through the task "
+         "call with positional / keyword / default-omitted spellings, interleaved with claims and completions; outcome and "
+         "identity of every submission, the REGISTERED set and the invocation count are validated by TLC."),
+   note="Sequential histories only (the property is stated for sequential submissions); two key arguments, one non-key argument.",
+   design="6/C07", technique=TECH)
+CHECKS["C09"] = dict(
+   text=("WaitGraph.tla (edges, status records, Blocking definition) model-checked over all histories of a small id universe; "
+         "TLC-simulated, lifecycle-guided and exhaustive macro-step histories (declare / finish / retry-cycle) are replayed "
+         "on both orchestrators through waiting_for_results / set_invocation_status / get_blocking_invocations and every "
+         "reported blocking set is validated by TLC against the definition (BlockingExact). The no-dead-lock half runs "
+         "generated call trees on the real ThreadRunner under the deterministic scheduler (see DESIGN.md)."),
+   note=("Whether waits declared BY a finished invocation are forgotten is left open by the contract (memory forgets, "
+         "SQLite keeps): the model accepts both."),
+   design="6/C09", technique=TECH)
+
 NOT_YET = {}
 
 def main() -> None:
